@@ -42,6 +42,9 @@ type BlockSpec struct {
 	// Pool: transactions that sit in the node's mempool while this block is made but are not in it (they may be
 	// delivered later or never); a replica with ambient checks on runs them through CheckTx around the block
 	Pool [][]byte `json:"pool,omitempty"`
+	// Restart: the node is stopped and started again on its data directory before this block (single-replica histories
+	// only; honoured by hist.World.RunBlock)
+	Restart bool `json:"restart,omitempty"`
 }
 
 // Chain is the part of Tendermint the harness re-implements: it produces the
